@@ -146,7 +146,9 @@ func main() {
 	defer ln2.Close()
 
 	errLog = filepath.Join(base, "errors.log")
-	cf := fmt.Sprintf("a.test:8080 {\n\troot %s\n\terrors "+errLog+"\n\tfastcgi /scripted unix:%s\n\tfastcgi / unix:%s {\n\t\text .php\n\t\tsplit .php\n\t\tindex index.php\n\t\tenv FOO bar\n\t\tenv DYN {host}-{method}-{path}\n\t}\n}\n", root, sock2, sock1)
+	// the responder sees the site under another directory than casket does (a container, a chroot)
+	const backendRoot = "/srv/backend-root"
+	cf := fmt.Sprintf("a.test:8080 {\n\troot %s\n\terrors "+errLog+"\n\tfastcgi /scripted unix:%s\n\tfastcgi / unix:%s {\n\t\text .php\n\t\tsplit .php\n\t\tindex index.php\n\t\tenv FOO bar\n\t\tenv DYN {host}-{method}-{path}\n\t\troot "+backendRoot+"\n\t}\n}\n", root, sock2, sock1)
 	l, err := kit.Load(cf, filepath.Join(base, "Casketfile"))
 	if err != nil {
 		rep.Broken("load: %v", err)
@@ -248,7 +250,7 @@ func main() {
 				}
 				wantPT := ""
 				if pp.pathInfo != "" {
-					wantPT = filepath.Join(root, pp.pathInfo)
+					wantPT = filepath.Join(backendRoot, pp.pathInfo)
 				}
 				if got.env["PATH_TRANSLATED"] != wantPT {
 					diffs = append(diffs, fmt.Sprintf("PATH_TRANSLATED %q want %q", got.env["PATH_TRANSLATED"], wantPT))
@@ -257,7 +259,7 @@ func main() {
 				if got.env["FOO"] != "bar" || got.env["DYN"] != "a.test:8080-POST-"+strings.SplitN(pp.p, "?", 2)[0] {
 					diffs = append(diffs, fmt.Sprintf("configured env FOO=%q DYN=%q", got.env["FOO"], got.env["DYN"]))
 				}
-				if got.env["SCRIPT_FILENAME"] != filepath.Join(root, pp.script) {
+				if got.env["SCRIPT_FILENAME"] != filepath.Join(backendRoot, pp.script) || got.env["DOCUMENT_ROOT"] != backendRoot {
 					diffs = append(diffs, fmt.Sprintf("SCRIPT_FILENAME %q", got.env["SCRIPT_FILENAME"]))
 				}
 				if rec.Status != 200 || !strings.HasPrefix(rec.Body.String(), "RESPONDER-OK") {
